@@ -315,7 +315,7 @@ class StmtMixin(object):
                         self.oos('dict key %r for %r' % (idx.ty, ty), node)
                     vv = self.coerce(val, ty.v)
                     if vv is None and ty.v == VAL:
-                        vv = self.to_val_deep(s2, val)
+                        s2, vv = self.to_val_deep(s2, val)
                     if vv is None:
                         self.oos('dict value %r for %r' % (val.ty, ty), node)
                     newc = self.dict_set(cont, kk.z, vv)
@@ -347,7 +347,9 @@ class StmtMixin(object):
                                 kz = Val.vs(idx.z)
                             else:
                                 self.oos('object key of sort %r' % (idx.ty,), node)
-                            vv = self.coerce(val, VAL) or self.to_val_deep(s3, val)
+                            vv = self.coerce(val, VAL)
+                            if vv is None:
+                                s3, vv = self.to_val_deep(s3, val)
                             res.append(Res(self.vobj_write(s3, Val.vo(c.z), self.dict_set(d, kz, vv)),
                                            mk_none()))
                         else:
@@ -619,11 +621,11 @@ class StmtMixin(object):
 
     def check_invariants(self, lc, st, ordn, phase, node):
         for i, inv in enumerate(lc.invariant):
-            c = self.spb(inv, st)
+            c = self.spb(inv, st, +1)
             self.add_vc('inv-%s[%d]:loop%d' % (phase, i, ordn), 'inv-' + phase, st, c, node, note=inv)
 
     def assume_invariants(self, lc, st):
-        cs = [self.spb(inv, st) for inv in lc.invariant]
+        cs = [self.spb(inv, st, -1) for inv in lc.invariant]
         return st.assume(*cs)
 
     def ex_While(self, s, st):
